@@ -101,6 +101,13 @@ Proof.
   fin.
 Qed.
 
+Lemma escape_ws_ok d : exists n, escape_ws (d ++ [0]) = Some n /\ 0 <= n <= len d /\ n <= 2.
+Proof.
+  unfold escape_ws. destruct (consume_newline_ok d) as (nl & -> & Hnl). cbn [option_bind].
+  destruct (0 <? nl); [exists nl; split; [reflexivity|lia]|].
+  destruct (consume_whitespace_ok d) as (w & -> & Hw). exists w. split; [reflexivity|lia].
+Qed.
+
 (* consumeEscape: 0 (false, rewound) or at least 2 bytes, never onto the terminator *)
 Lemma consume_escape_ok d :
   exists n, consume_escape (d ++ [0]) = Some n /\ 0 <= n <= len d /\ (n = 0 \/ 2 <= n).
@@ -114,7 +121,7 @@ Proof.
   - destruct (is_hex _); cbn [Z.ltb Z.compare tl].
     + destruct (hex_upto_ok 5 d) as (k & -> & Hk). cbn [option_bind].
       rewrite skipz_app_sent by lia.
-      destruct (consume_whitespace_ok (skipz k d)) as (w & -> & Hw). cbn [option_bind].
+      destruct (escape_ws_ok (skipz k d)) as (w & -> & Hw). cbn [option_bind].
       rewrite len_skipz in Hw by lia.
       fin.
     + destruct (192 <=? _) eqn:E.
